@@ -950,16 +950,6 @@ theorem sim_runWith (special : SpecialFn) (mode : Mode) (c : Nat) (sig : Sig) (r
   · tws_pair hab.apply sig raw, sig.apply raw a, sig.apply raw b
     tws_sim
 
-/-- the nested runner of EXEC (level 0) -/
-theorem sim_runInner (mode : Mode) (c : Nat) : InnerSim fut t (runInner mode c) := by
-  intro sig raw
-  unfold runInner
-  apply sim_runWith
-  intro args cis
-  apply sim_special
-  intro sig raw
-  tws_sim
-
 /-! ## Scripts -/
 
 theorem sim_nextPick : Sim (Tw fut t) Eq nextPick nextPick := by
@@ -1025,6 +1015,15 @@ theorem sim_runScriptCmd (mode : Mode) (c : Nat) (sig : Sig) (raw : List Bytes) 
   refine sim_getDb_bind _ (fun a b hab => ?_)
   tws_pair hab.apply sig raw, sig.apply raw a, sig.apply raw b
   tws_sim
+
+/-- the nested runner of EXEC (level 0) -/
+theorem sim_runInner (mode : Mode) (c : Nat) : InnerSim fut t (runInner mode c) := by
+  intro sig raw
+  refine runInner_cases (P := fun m => Sim (Tw fut t) Eq m m) mode c sig raw
+    (fun _ => sim_runScriptCmd mode c sig raw false) (fun _ => ?_)
+  apply sim_runWith
+  intro args cis
+  exact sim_special_stub _ _ _ _ _
 
 /-- `_run_command` for a command issued by a client -/
 theorem sim_runCommand (mode : Mode) (c : Nat) (sig : Sig) (raw : List Bytes) (fromScript : Bool) :
